@@ -63,8 +63,11 @@ def h_subtrace(ctx, plan, case, rec, rng, nk, hist, route, guarded):
     st, prefix = found
     if not st.stmts:
         return None
+    import jax
+
     issues = []
     dims = tuple(c[1] for c in prefix)
+    masky = bool({"Mask", "Switch", "OrElse", "Mix", "MaskedIterateFinal", "MaskedIterate"} & case.kinds)
     for s in st.stmts:
         comps = ast.addr_components(s.addr)
         try:
@@ -75,7 +78,17 @@ def h_subtrace(ctx, plan, case, rec, rng, nk, hist, route, guarded):
         # choices: the callee's sites relative to the subtrace, with the wrappers' index levels leading
         sites = s.callee.sites(prefix)
         try:
-            ex = obs.valid_assignment(obs.extract_sites(sites, sub.get_choices()))
+            # a stacked subtrace's choices are read the way the library itself reads them
+            # (ScanTrace.build / VmapTrace.build): get_choices() mapped over the stacked axes
+            getc = lambda t: t.get_choices()  # noqa
+            for _ in dims:
+                getc = jax.vmap(getc)
+            sub_chm = getc(sub)
+        except Exception as e:
+            issues.append(Issue("subtrace.raises", f"choices of the subtrace at {s.addr!r} unreadable: {common.exc_mechanism(e)}: {str(e)[:100]}", "get_choices," + common.exc_mechanism(e)))
+            continue
+        try:
+            ex = obs.valid_assignment(obs.extract_sites(sites, sub_chm))
         except obs.StructuralMismatch as e:
             issues.append(Issue("subtrace.choices", f"subtrace at {s.addr!r}: {e}"))
             continue
@@ -85,7 +98,13 @@ def h_subtrace(ctx, plan, case, rec, rng, nk, hist, route, guarded):
         for p, v in rec.assign.items():
             if p[nd : nd + len(comps)] == comps and all(not isinstance(c, str) for c in p[:nd]):
                 parent[p[:nd] + p[nd + len(comps) :]] = v
-        if set(parent) != set(ex):
+        if masky:
+            # under a mask / switch wrapper the parent's view is masked while the subtrace is the
+            # raw inner execution: only what the parent holds as valid must agree
+            bad = [p for p in parent if p not in ex or not engine._same_value(parent[p], ex[p])]
+            if bad:
+                issues.append(Issue("subtrace.choices", f"subtrace at {s.addr!r}: parent's valid choice {bad[0]} missing or different in the subtrace", "masked-wrapper"))
+        elif set(parent) != set(ex):
             issues.append(Issue("subtrace.choices", f"subtrace at {s.addr!r}: address sets differ: {sorted(set(parent) ^ set(ex), key=repr)[:4]}", "tuple" if isinstance(s.addr, tuple) else "str"))
         else:
             for p in parent:
